@@ -478,24 +478,11 @@ theorem gen_search_result (f : ℝ → ℝ) (hf : StrictMono f) (r : ℝ) (hr : 
     rw [BisectionGen.gen_bisection_search_eq_model, if_neg]
     rwa [Bisection.searchArgsOk_iff]
 
-/-- `gen_autoregressive_exact` (idealised exact-root case on the generated scan): triangular map strictly increasing in its own
-coordinate, `xs` its preimage of `0`; if the generated `_bisection_search` (these `lower, upper, tol, max_iter`, this fuel) returns
-the exact root of every strictly increasing function that has one, the generated `_autoregressive_bisection_search` returns `xs`. -/
-theorem gen_autoregressive_exact {fn : List ℝ → List ℝ} {n : ℕ} (ht : Bisection.Triangular fn n)
-    (xs : List ℝ) (hxs : xs.length = n) (hroot : ∀ i, i < n → (fn xs).getD i 0 = 0)
-    (lower upper tol : ℝ) (max_iter : Int) (hmi : 0 ≤ max_iter) (htol : 0 < tol) (fuel : ℕ)
-    (hsolve : ∀ (g : ℝ → ℝ) (r : ℝ), StrictMono g → g r = 0 →
-      ∃ ai it, GenBis.bisectionSearch fuel g lower upper tol max_iter = Bw.Res.ok (r, ai, it)) :
-    GenBis.autoregressiveBisectionSearch fuel fn lower upper tol n max_iter = Bw.Res.ok xs := by
-  have hok : searchArgsOk tol max_iter = true := (Bisection.searchArgsOk_iff tol max_iter).mpr ⟨hmi, htol⟩
-  rw [BisectionGen.gen_autoregressive_eq_model _ _ _ _ _ _ _ hok, BisectionGen.ofOption_eq_ok]
-  unfold autoregressiveBisection
-  apply autoregressive_exact ht xs hxs hroot _ _ _ (by simp [arInit])
-  intro g r hg hr
-  obtain ⟨ai, it, e⟩ := hsolve g r hg hr
-  rw [BisectionGen.gen_bisection_search_eq_model, if_pos hok, BisectionGen.ofOption_eq_ok] at e
-  unfold bisectionSolver
-  rw [e]; rfl
+/- A theorem `gen_autoregressive_exact` ("if the generated `_bisection_search` with fixed `lower, upper, tol, max_iter, fuel` returns the
+exact root of every strictly increasing function that has one, the generated scan returns the preimage") stood here.  The session-3 audit
+showed its hypothesis to be unsatisfiable for every choice of the parameters (`gen_autoregressive_exact_hsolve_false` below), so it was
+REMOVED as vacuous; the exact-solver idealisation is `autoregressive_exact` (abstract solver, inhabited: `autoregressive_exact_instance`),
+and the clause about the generated scan is carried by `gen_autoregressive_error_bound`. -/
 
 /-- `gen_autoregressive_error_bound`: the generated `_autoregressive_bisection_search` on a triangular map whose own-coordinate
 slices are continuous with slope `≥ m > 0` and which is `L`-Lipschitz (ℓ¹) in the earlier coordinates, `xs` its preimage of `0` with
@@ -574,10 +561,10 @@ theorem audit_whileFuel_iter_le (f : ℝ → ℝ) : ∀ (n : ℕ) (s s' : AdaptS
       push_cast; omega
     · simp only [Option.some.injEq] at h; subst h; push_cast; omega
 
-/-- AUDIT (VACUITY of `gen_autoregressive_exact`): its hypothesis `hsolve` — "the generated `_bisection_search` with THESE
+/-- AUDIT (why no `gen_autoregressive_exact` exists): the hypothesis `hsolve` — "the generated `_bisection_search` with THESE
 `lower < upper`, `tol`, `max_iter`, `fuel` returns the exact root of every strictly increasing function that has one" — is FALSE for
 every choice of the parameters: the root `upper + (upper − lower)·2^(fuel+1)` needs `fuel + 2 > fuel` adaptation steps, so the
-search runs out of fuel on `x ↦ x − root`.  Hence `gen_autoregressive_exact` (with `lower < upper`) has an unsatisfiable hypothesis set. -/
+search runs out of fuel on `x ↦ x − root`.  A theorem with this hypothesis (and `lower < upper`) would be vacuous. -/
 theorem gen_autoregressive_exact_hsolve_false {lower upper : ℝ} (h : lower < upper) (tol : ℝ) (max_iter : Int) (fuel : ℕ)
     (hsolve : ∀ (g : ℝ → ℝ) (r : ℝ), StrictMono g → g r = 0 →
       ∃ ai it, GenBis.bisectionSearch fuel g lower upper tol max_iter = Bw.Res.ok (r, ai, it)) : False := by
